@@ -26,10 +26,10 @@ type c15cEnv struct {
 	lb      *loopback
 	lbPlain *loopback
 	lbStats *loopback // the same service behind a stats handler and interceptors (fronts ending in "+s")
-	mu     sync.Mutex
-	events chan string
-	point  string
-	first  bool // the handler reads one request message before it waits (gRPC-web over HTTP/1: net/http
+	mu      sync.Mutex
+	events  chan string
+	point   string
+	first   bool // the handler reads one request message before it waits (gRPC-web over HTTP/1: net/http
 	// only watches the connection once the request body has been consumed)
 }
 
